@@ -100,7 +100,14 @@ func (_this *Context) SwapBuilder(builder Builder) Builder {
 
 func (_this *Context) ArtificiallyTerminate() {
 	for len(_this.builderStack) > 1 {
+		depth := len(_this.builderStack)
 		_this.CurrentBuilder.BuildArtificiallyEndContainer(_this)
+		if len(_this.builderStack) >= depth {
+			// This builder has nothing to wind up and left itself on the
+			// stack (pointer, ignore builders...): drop it so that the
+			// builders below get their turn.
+			_this.UnstackBuilder()
+		}
 	}
 }
 
